@@ -268,6 +268,8 @@ func drive(env *fw.Env, b fw.Behaviour) *fw.Trace {
 		t = driveChild(beh, seed)
 	case "hammer":
 		t = driveHammer(beh, seed)
+	case "resmgr":
+		t = driveResMgr(beh, seed)
 	default:
 		return &fw.Trace{Status: fw.DriverError, Note: "unknown scene " + beh.Scene}
 	}
@@ -309,7 +311,8 @@ func suiteJob(name, suite string, emit bool) fw.TLCJob {
 
 // thinning: drive one in N of the generated behaviours of a class. Class sizes of the "gen" suite:
 // latch 8145 (x 6 component kinds), tunnel 7144 repaired / 3520 as-it-was, Connecting 180 / 48, Starting 722,
-// bridge 26380 (14832 of them with the context-cancelled-while-flowing / > 1 MiB paths) / 9827;
+// bridge 49150 (about 15000 with the context-cancelled-while-flowing / > 1 MiB paths, 9349 with a target connection
+// arriving during Close, driven three times as densely) / 12751, resmgr 220 (all driven);
 // "genbig": latch 28965 (x 6), tunnel 10304 / 12816, bridge 17187 / 39634.
 func thinning(tier, src, scene, start string, legacy bool) int {
 	quick := tier == "quick"
@@ -328,7 +331,7 @@ func thinning(tier, src, scene, start string, legacy bool) int {
 	switch {
 	case scene == "latch":
 		if quick {
-			return 100
+			return 130
 		}
 		return 16
 	case scene == "tunnel" && start == "Connecting":
@@ -348,16 +351,16 @@ func thinning(tier, src, scene, start string, legacy bool) int {
 		if legacy {
 			return 30
 		}
-		return 28
+		return 36
 	case !quick: // bridge
 		if legacy {
-			return 4
+			return 5
 		}
-		return 8
+		return 14
 	case legacy:
-		return 60
+		return 80
 	}
-	return 80
+	return 150
 }
 
 // generated is one line printed by Dispose.tla: the configuration and the behaviour prefix.
@@ -434,16 +437,24 @@ func main() {
 				}
 				return []json.RawMessage{fw.MustJSON(behaviour{Scene: "tunnel", Start: g.Start, Legacy: legacy, Steps: g.Steps})}
 			case "bridge":
+				for _, st := range g.Steps {
+					if st.P == "tg" && rate > 3 { // the target connection arriving while the bridge closes: denser sample
+						rate /= 3
+						break
+					}
+				}
 				if !keep("", rate) {
 					return nil
 				}
 				return []json.RawMessage{fw.MustJSON(behaviour{Scene: "bridge", Legacy: legacy, Steps: g.Steps})}
+			case "resmgr":
+				return []json.RawMessage{fw.MustJSON(behaviour{Scene: "resmgr", Steps: g.Steps})}
 			}
 			panic("scene " + g.Scene)
 		},
 		ExtraBeh: func(env *fw.Env) []json.RawMessage {
 			var out []json.RawMessage
-			nfree := 120
+			nfree := 80
 			if env.Tier == "thorough" {
 				nfree = 800
 			}
@@ -482,6 +493,9 @@ func main() {
 				out = append(out, fw.MustJSON(behaviour{Scene: "tunnel", Start: "Connected", Free: true, Closers: 4, Seed: i}))
 				out = append(out, fw.MustJSON(behaviour{Scene: "tunnel", Start: "Connecting", Free: true, Closers: 3, Seed: i}))
 				out = append(out, fw.MustJSON(behaviour{Scene: "bridge", Free: true, Closers: 2 + i%2, Seed: i}))
+				if i%4 == 0 {
+					out = append(out, fw.MustJSON(behaviour{Scene: "resmgr", Free: true, Closers: 1 + i%3, Seed: i / 4}))
+				}
 			}
 			return out
 		},
